@@ -109,7 +109,9 @@ def run_seq_streams(run, a, pid, fail_pids, modes=('walk', 'boundary', 'pairs'),
 def core_check(pid, props_mod, fail_pids, modes=('walk', 'boundary', 'pairs'), sample=None, extra_mods=()):
     def f(run, a):
         vlib.extract()
-        vlib.standard_lean_phase(run, props_mod, None, ['BytesVerif.Lemmas.Core.Sound'] + list(extra_mods))
+        # C02 also rests on the inventory of unsafe sites outside bytes.rs / bytes_mut.rs (Cert/C17): a new or edited unsafe block
+        # in the Buf / BufMut code is not covered by M1's no_ub
+        vlib.standard_lean_phase(run, props_mod, 'BytesVerif.Cert.C17' if pid == 'C02' else None, ['BytesVerif.Lemmas.Core.Sound'] + list(extra_mods))
         # the workhorse lemma behind every M1 property
         ok, found, problems = vlib.audit_axioms(['BytesVerif.Lemmas.Core.Sound'], ['BytesVerif.Core.step_sound', 'BytesVerif.Core.WFx_init'], pid + '_sound')
         for t in ('BytesVerif.Core.step_sound', 'BytesVerif.Core.WFx_init'):
@@ -120,6 +122,14 @@ def core_check(pid, props_mod, fail_pids, modes=('walk', 'boundary', 'pairs'), s
             run.breakage('step_sound (Lemmas/Core/Sound.lean) no longer checks', '\n'.join(problems))
         run.trusted += CORE_TRUST
         run_seq_streams(run, a, pid, fail_pids, modes)
+        if pid == 'C02' and not (a.replay and '\nm ' not in open(a.replay).read()):
+            # writes through BufMut targets: guard bytes around every fixed-size destination (mut stream of C11)
+            import checks_buf
+            checks_buf.run_mut_stream(run, a, 'C02', vlib.cargo_build('debug'), {'C02'})
+            run.trusted.append('BufMut side of C02: guard bytes around every fixed-size destination in the mut stream (M2 write model of C11), '
+                               'and the reviewed unsafe-site inventory (Cert/C17)')
+        if pid == 'C02' and run.tier == 'thorough' and not a.replay:
+            asan_support(run, a, [['seq'], ['seq', 'boundary'], ['seq', 'pairs']], 'C02')
         if sample:
             run.samples += sample
         return run.finish()
@@ -202,3 +212,47 @@ def c18(run, a):
     run.samples += ['r append 11 ; rs A=12 off=0 len=12 cap=12 allocs=4 live=41 parts=0 pinned=2',
                     'theorem alloc_size_bounded (A0 M ops) (h : HistOK M (init A0) ops) : (run (init A0) ops).A <= B A0 M ∧ ∀ a ∈ pinned, a <= B A0 M']
     return run.finish()
+
+
+def asan_support(run, a, streams, what):
+    """Thorough-tier SUPPORT run (never a proof, never the only evidence): the same streams on an AddressSanitizer build of the
+    harness without the ledger allocator (nightly toolchain, offline).  An ASan report is a concrete failing input."""
+    import subprocess
+    env = dict(os.environ)
+    env['RUSTFLAGS'] = '-Zsanitizer=address'
+    tdir = os.path.join(vlib.BUILD, 'cargo-asan')
+    cmd = ['cargo', '+nightly', 'build', '--offline', '--quiet', '--bin', 'hseq', '--features', 'noledger',
+           '--target', 'x86_64-unknown-linux-gnu', '--target-dir', tdir]
+    with vlib.Lock('cargo.lock'):
+        p = subprocess.run(cmd, cwd=os.path.join(vlib.VERIF, 'harness'), env=env, stdout=subprocess.PIPE, stderr=subprocess.STDOUT, text=True)
+    if p.returncode != 0:
+        run.cov['asan'] = 'unavailable: ' + p.stdout[-200:]
+        return
+    binpath = os.path.join(tdir, 'x86_64-unknown-linux-gnu', 'debug', 'hseq')
+    e2 = dict(os.environ)
+    e2.update({'ASAN_OPTIONS': 'detect_leaks=0:abort_on_error=0', 'VERIF_TIER': 'quick'})
+    res = {}
+    for args in streams:
+        q = subprocess.run([binpath] + args, env=e2, stdout=subprocess.PIPE, stderr=subprocess.PIPE)
+        out = q.stdout.decode(errors='replace').splitlines()
+        err = q.stderr.decode(errors='replace')
+        res[' '.join(args)] = {'rc': q.returncode, 'lines': len(out)}
+        if 'AddressSanitizer' in err:
+            # the script that was running: ops since the last `script` / the last adv-try
+            tries, last_adv = [], None
+            for ln in out:
+                if ln.startswith('script'):
+                    tries = []
+                elif ln.startswith('try '):
+                    tries.append('op ' + ln[4:])
+                elif ln.startswith('adv-try '):
+                    last_adv = ln[8:]
+            kind = [l for l in err.splitlines() if 'AddressSanitizer' in l][:1]
+            rep = f'# AddressSanitizer build, no ledger: hseq {" ".join(args)}\n# {kind[0] if kind else ""}\n' + \
+                  (f'one {last_adv}\n' if args[0] == 'adv' and last_adv else '\n'.join(tries))
+            run.fail(f'asan:{args[0]}:{(kind[0].split(":")[-1].strip()[:40]) if kind else ""}', f'oracle-fail {what} [asan] ' + (kind[0] if kind else ''), rep)
+        elif q.returncode != 0:
+            run.breakage(f'ASan support run hseq {" ".join(args)} died', f'rc={q.returncode}\n{err[-400:]}')
+    run.cov['asan'] = res
+    run.trusted.append('thorough tier only: AddressSanitizer build of the harness (nightly, no ledger allocator) as a second out-of-bounds / '
+                       'use-after-free oracle on the same streams — support, not proof')
